@@ -680,8 +680,8 @@ Expr={expr}"""
         # Used by `partitions` for partition-wise slicing
 
         # Convert index to list
-        if isinstance(index, int):
-            index = [index]
+        if isinstance(index, (int, np.integer)):
+            index = [int(index)]
         index = np.arange(self.npartitions, dtype=object)[index].tolist()
 
         # Check that selection makes sense
